@@ -220,7 +220,7 @@ def restricted_string_type(
 
 
 def _is_path_type(value, type_class):
-    return isinstance(value, Path)
+    return isinstance(value, type_class)
 
 
 def path_type(mode: str, docstring: Optional[str] = None, **kwargs) -> _TypeAlias:
